@@ -116,14 +116,16 @@ type Config struct {
 
 // Token classes (semantic; the harness constructs a token of each class against the running node).
 const (
-	TokNone     = "none"
-	TokFresh    = "fresh"    // the most recently issued token, unexpired
-	TokExpired  = "expired"  // issued by this node, lifetime over
-	TokGarbage  = "garbage"  // not a token
-	TokBadSig   = "badsig"   // fresh token with a damaged signature
-	TokTampered = "tampered" // payload with a later expiry under the fresh token's signature
-	TokOlder    = "older"    // issued by this node, unexpired, but a newer token has been issued since
-	TokTruncSig = "truncsig" // fresh token's payload with the signature cut off
+	TokNone           = "none"
+	TokFresh          = "fresh"            // the most recently issued token, unexpired
+	TokExpired        = "expired"          // issued by this node, lifetime over
+	TokGarbage        = "garbage"          // not a token
+	TokBadSig         = "badsig"           // fresh token with a damaged signature
+	TokTampered       = "tampered"         // payload with a later expiry under the fresh token's signature
+	TokOlder          = "older"            // issued by this node, unexpired, but a newer token has been issued since
+	TokTruncSig       = "truncsig"         // fresh token's payload with the signature cut off
+	TokForgedEmptyKey = "forged-empty-key" // well-formed unexpired payload signed by the client with an empty HMAC key
+	TokForgedZeroKey  = "forged-zero-key"  // the same, signed with 64 zero bytes
 )
 
 // Request is the access-control relevant part of a request.
